@@ -71,7 +71,7 @@ contract(
     call="pycomm3.packets.util.request_path(class_code, instance, attribute)",
     params={"class_code": VAL, "instance": VAL, "attribute": P.oneof(VAL, P.const("b''"), P.const("0"))},
     ref="spec.epath.encode_request_path(class_code, instance, attribute)",
-    callsite_ref="spec.abstract.bytes_of(spec.epath.encode_request_path, class_code, instance, attribute)",
+    callsite=True, callsite_ref="spec.abstract.bytes_of(spec.epath.encode_request_path, class_code, instance, attribute)",
     callsite_ensures=["len(result) >= 5", "len(result) <= 19", "len(result) % 2 == 1"],
     ensures=["spec.epath.try_parse_sized(result) == [('logical', 'class_id', spec.epath.logical_value(class_code)), "
              "('logical', 'instance_id', spec.epath.logical_value(instance))] + "
